@@ -30,7 +30,7 @@ func init() {
 			if tier == "thorough" {
 				return 20 * 40
 			}
-			return 20 * 12
+			return 20 * 24
 		},
 		Run:          runC16,
 		Exhaustive:   true,
